@@ -106,6 +106,12 @@ def run(run):
                             law("commutation A || B = B || A", QG.mk("or", a, b), R(QG.mk("or", b, a))[0], both)
                             law("commutation A && B = B && A", both, R(QG.mk("and", b, a))[0], both)
                             law("absorption A || (A && B) = A", QG.mk("or", a, both), R(a)[0], both)
+                            # a negated group whose first / last operand is itself negated
+                            na, nb = QG.mk("not", a), QG.mk("not", b)
+                            law("!(!A && B) = A ∪ (all - B)", ("not", ("paren", ("and", na, b))), R(a)[0] | (universe - R(b)[0]), both)
+                            law("!(!A || B) = A ∩ (all - B)", ("not", ("paren", ("or", na, b))), R(a)[0] & (universe - R(b)[0]), both)
+                            law("!(A && !B) = (all - A) ∪ B", ("not", ("paren", ("and", a, nb))), (universe - R(a)[0]) | R(b)[0], both)
+                            law("!(!A && !B) = A ∪ B", ("not", ("paren", ("and", na, nb))), R(a)[0] | R(b)[0], both)
                             # parentheses only group: every operand written in its own parentheses
                             P = lambda x: ("paren", x)
                             law("parentheses !((A) && (B)) = all - (A ∩ B)", ("not", P(("and", P(a), P(b)))), universe - (R(a)[0] & R(b)[0]), both)
